@@ -10,6 +10,7 @@ package jws
 //@ import "strings"
 //@ import "github.com/notaryproject/notation-core-go/signature"
 //@ import "github.com/notaryproject/notation-core-go/internal/algorithm"
+//@ import "github.com/notaryproject/notation-core-go/signature/internal/base"
 
 // ---- C02: the JWS algorithm tables (proved on the package initialiser, assumed elsewhere; no function stores to them)
 //@ global-invariant [names] ps256 == "PS256" && ps384 == "PS384" && ps512 == "PS512" && es256 == "ES256" && es384 == "ES384" && es512 == "ES512"
@@ -212,3 +213,144 @@ package jws
 //@   ensures [ok=>content] err == nil ==> result != nil && fresh(result) && JWSContentOf(result, e.base) && nx509.ChainInput(result.SignerInfo.CertificateChain) && result.SignerInfo.CertificateChain[0] == x509.ParseCertificate(e.base.Header.CertChain[0]).result0
 // stmt C02 binding: the algorithm the signature was checked under is the reported one
 //@   ensures [ok=>alg-binding] err == nil ==> JWTAlg(JoinDot3(e.base.Protected, e.base.Payload, e.base.Signature)) == JWSNameOf(result.SignerInfo.SignatureAlgorithm)
+
+// ================= sign path
+
+//@ func extractJwtAlgorithm(signer)
+//@   requires signer != nil
+//@   ensures [err] signer.KeySpec().err != nil ==> err != nil
+//@   ensures [ok] err == nil ==> signer.KeySpec().err == nil && IsJWSAlgName(result) && result == JWSNameOf(algorithm.AlgOf(signer.KeySpec().result0.Type, signer.KeySpec().result0.Size))
+//@   pure
+
+//@ func convertToMap(i)
+//@   ensures [hdr] typeof(i) == type(jwsProtectedHeader) ==> err == nil && result != nil && fresh(result) && (forall k string :: has(result, k) <==> JKey(HdrJSON(unbox(i, type(jwsProtectedHeader))), k)) && (forall k string :: has(result, k) ==> result[k] == JVal(HdrJSON(unbox(i, type(jwsProtectedHeader))), k))
+
+// disjoint union, or an error when a key repeats
+//@ spec func UnionOf(result map[string]interface{}, maps []map[string]interface{}, n int) bool {
+//@     (forall k string :: has(result, k) <==> (exists j :: 0 <= j && j < n && has(maps[j], k))) &&
+//@     (forall j int, k string :: 0 <= j && j < n && has(maps[j], k) ==> result[k] == maps[j][k]) &&
+//@     (forall i int, j int, k string :: 0 <= i && i < j && j < n ==> !(has(maps[i], k) && has(maps[j], k))) }
+//@ func mergeMaps(maps)
+//@   requires forall j :: 0 <= j && j < len(maps) ==> allocated(maps[j])
+//@   ensures [err] err != nil ==> result == nil
+//@   ensures [union] err == nil ==> result != nil && fresh(result) && UnionOf(result, maps, len(maps))
+//@   ensures [two] (err == nil && len(maps) == 2) ==> (forall k string :: has(result, k) <==> (has(maps[0], k) || has(maps[1], k))) && (forall k string :: !(has(maps[0], k) && has(maps[1], k))) && (forall k string :: has(maps[0], k) ==> result[k] == maps[0][k]) && (forall k string :: has(maps[1], k) ==> result[k] == maps[1][k])
+//@   loop 0
+//@     invariant result != nil && fresh(result) && UnionOf(result, maps, it) && (forall j :: 0 <= j && j < len(maps) ==> maps[j] < result)
+//@   loop 1
+//@     invariant result != nil && fresh(result) && 0 <= it#0 - 1 && it#0 - 1 < len(maps) && m == maps[it#0 - 1] && (forall j :: 0 <= j && j < len(maps) ==> maps[j] < result)
+//@     invariant forall k string :: has(result, k) <==> ((exists j :: 0 <= j && j < it#0 - 1 && has(maps[j], k)) || (visited[k] && has(m, k)))
+//@     invariant forall k string :: visited[k] && has(m, k) ==> result[k] == m[k] && (forall j :: 0 <= j && j < it#0 - 1 ==> !has(maps[j], k))
+//@     invariant forall j int, k string :: 0 <= j && j < it#0 - 1 && has(maps[j], k) ==> result[k] == maps[j][k]
+//@     invariant forall i int, j int, k string :: 0 <= i && i < j && j < it#0 - 1 ==> !(has(maps[i], k) && has(maps[j], k))
+
+// stmt C16 (JWS attribute clauses) and C08 (placement): the signed header map carries every extended attribute under its
+// key with its value, keys are text, pairwise distinct and not (a case variant of) a specification header; the
+// specification headers are those of the marshalled header struct built from the request
+//@ stmt spec func AttrsPlaced(req *signature.SignRequest, m map[string]interface{}) bool {
+//@     (forall k :: 0 <= k && k < len(req.ExtendedSignedAttributes) ==> typeof(req.ExtendedSignedAttributes[k].Key) == type(string) &&
+//@          has(m, unbox(req.ExtendedSignedAttributes[k].Key, type(string))) && m[unbox(req.ExtendedSignedAttributes[k].Key, type(string))] == req.ExtendedSignedAttributes[k].Value &&
+//@          !IsSpecHeader(unbox(req.ExtendedSignedAttributes[k].Key, type(string))) && !isHeaderKeyCaseVariant$(unbox(req.ExtendedSignedAttributes[k].Key, type(string)))) &&
+//@     (forall i, j :: 0 <= i && i < j && j < len(req.ExtendedSignedAttributes) ==> req.ExtendedSignedAttributes[i].Key != req.ExtendedSignedAttributes[j].Key) }
+//@ func getSignedAttributes(req, algorithm)
+//@   requires req != nil
+//@   ensures [err] err != nil ==> result == nil
+//@   ensures [ok=>attrs] err == nil ==> result != nil && fresh(result) && AttrsPlaced(req, result)
+//@   ensures [ok=>scheme] err == nil ==> (req.SigningScheme == signature.SigningSchemeX509 || req.SigningScheme == signature.SigningSchemeX509SigningAuthority) && has(result, "io.cncf.notary.signingScheme") && typeof(result["io.cncf.notary.signingScheme"]) == type(string) && unbox(result["io.cncf.notary.signingScheme"], type(string)) == req.SigningScheme
+//@   ensures [ok=>alg-cty] err == nil ==> has(result, "alg") && JStr(result["alg"]) == algorithm && has(result, "cty") && JStr(result["cty"]) == req.Payload.ContentType
+//@   ensures [ok=>expiry] err == nil ==> (has(result, "io.cncf.notary.expiry") <==> !req.Expiry.IsZero())
+//@   ensures [ok=>time-x509] (err == nil && req.SigningScheme == signature.SigningSchemeX509) ==> has(result, "io.cncf.notary.signingTime") && !has(result, "io.cncf.notary.authenticSigningTime")
+//@   ensures [ok=>time-authority] (err == nil && req.SigningScheme == signature.SigningSchemeX509SigningAuthority) ==> has(result, "io.cncf.notary.authenticSigningTime") && !has(result, "io.cncf.notary.signingTime")
+//@   ensures [ok=>nothing-else] err == nil ==> (forall s string :: has(result, s) ==> IsSpecHeader(s) || (exists k :: 0 <= k && k < len(req.ExtendedSignedAttributes) && req.ExtendedSignedAttributes[k].Key == box(s)))
+//@   loop 0
+//@     invariant extAttrs != nil && fresh(extAttrs) && fresh(crit)
+//@     invariant forall k :: 0 <= k && k < it ==> typeof(req.ExtendedSignedAttributes[k].Key) == type(string) && has(extAttrs, unbox(req.ExtendedSignedAttributes[k].Key, type(string))) && extAttrs[unbox(req.ExtendedSignedAttributes[k].Key, type(string))] == req.ExtendedSignedAttributes[k].Value
+//@     invariant forall i, j :: 0 <= i && i < j && j < it ==> req.ExtendedSignedAttributes[i].Key != req.ExtendedSignedAttributes[j].Key
+//@     invariant forall s string :: has(extAttrs, s) ==> (exists k :: 0 <= k && k < it && req.ExtendedSignedAttributes[k].Key == box(s))
+//@   loop 1
+//@     invariant forall s string :: visited[s] && has(extAttrs, s) ==> !IsSpecHeader(s) && !isHeaderKeyCaseVariant$(s)
+
+//@ import "github.com/notaryproject/notation-core-go/internal/timestamp"
+//@ import tspclient "github.com/notaryproject/tspclient-go"
+
+//@ func generateJWS(compact, req, certs)
+//@   requires req != nil && (forall k :: 0 <= k && k < len(certs) ==> certs[k] != nil)
+//@   ensures [err] err != nil ==> result == nil
+//@   ensures [ok] err == nil ==> result != nil && fresh(result) && JoinDot3(result.Protected, result.Payload, result.Signature) == compact && result.Header.SigningAgent == req.SigningAgent && len(result.Header.TimestampSignature) == 0 && len(result.Header.CertChain) == len(certs) && (forall k :: 0 <= k && k < len(certs) ==> result.Header.CertChain[k] == certs[k].Raw)
+//@   loop 0
+//@     invariant len(rawCerts) == len(certs) && fresh(rawCerts) && len(parts) == 3
+//@     invariant forall k :: 0 <= k && k < it ==> rawCerts[k] == certs[k].Raw
+
+// stmt C08: "The bytes handed to an external signer are exactly the bytes whose signature verification later checks":
+// the signing string the JWT library asks to be signed is passed on unchanged, the signature comes back base64url-encoded
+//@ func (*remoteSigningMethod).Sign(s, signingString, key)
+//@   requires s != nil && s.signer != nil
+//@   modifies s.certs
+//@   calls Signer.Sign
+//@   ensures [pass-through] called(Signer.Sign) && lastarg(Signer.Sign, 0) == s.signer && ncalls(Signer.Sign) == old(ncalls(Signer.Sign)) + 1
+//@   ensures [ok] err == nil ==> lastret(Signer.Sign, 2) == nil && result == base64.RawURLEncoding.EncodeToString(lastret(Signer.Sign, 0)) && s.certs == lastret(Signer.Sign, 1)
+//@   ensures [err] err != nil ==> result == "" && s.certs == old(s.certs)
+//@ func (*remoteSigningMethod).Alg(s)
+//@   requires s != nil
+//@   ensures [field] result == s.algorithm
+//@ func (*remoteSigningMethod).CertificateChain(s)
+//@   requires s != nil
+//@   ensures [set] err == nil <==> s.certs != nil
+//@   ensures [value] err == nil ==> result == s.certs
+//@ func (*remoteSigningMethod).PrivateKey(s)
+//@   ensures [nil] result == nil
+//@ func (*remoteSigningMethod).Verify(s, signingString, signature, key)
+//@   ensures [never] result != nil
+//@ func newRemoteSigningMethod(signer)
+//@   requires signer != nil
+//@   ensures [ok] err == nil ==> result != nil && typeof(result) == type(*remoteSigningMethod) && unbox(result, type(*remoteSigningMethod)).signer == signer && unbox(result, type(*remoteSigningMethod)).algorithm == extractJwtAlgorithm$(signer).result0 && extractJwtAlgorithm$(signer).err == nil
+//@   ensures [err] err != nil ==> result == nil
+//@ func newLocalSigningMethod(signer)
+//@   requires signer != nil
+//@   ensures [ok] err == nil ==> result != nil && typeof(result) == type(*localSigningMethod) && extractJwtAlgorithm$(signer).err == nil
+//@   ensures [err] err != nil ==> result == nil
+//@ func getSigningMethod(signer)
+//@   requires signer != nil
+//@   ensures [ok] err == nil ==> result != nil && extractJwtAlgorithm$(signer).err == nil
+//@   ensures [err] err != nil ==> result == nil
+
+//@ interface func (signingMethod).Alg(m)
+//@   pure
+//@ interface func (signingMethod).PrivateKey(m)
+//@   pure
+// assumption on caller-supplied signers: a returned chain has no nil element
+//@ interface func (signingMethod).CertificateChain(m)
+//@   ensures err == nil ==> (forall k :: 0 <= k && k < len(result) ==> result[k] != nil)
+
+//@ func sign(payload, headers, method)
+//@   requires method != nil
+//@   ensures [err] err != nil ==> result0 == "" && result1 == nil
+//@   ensures [ok] err == nil ==> (forall k :: 0 <= k && k < len(result1) ==> result1[k] != nil)
+
+// stmt C15 (envelope side, JWS): only under notary.x509 with a timestamper is the authority contacted; the request
+// is over this envelope's signature bytes with the hash of the signing algorithm; the token lands in the header;
+// failures are TimestampErrors
+//@ func timestampJWS(env, req, signingScheme)
+//@   requires env != nil && req != nil && (req.Timestamper != nil ==> req.Signer != nil)
+//@   modifies env.Header
+//@   calls NewRequest, Timestamper.Timestamp, SignedToken.Verify, Validator.ValidateContext, Timestamp
+//@   ensures [not-applicable=>untouched] (signingScheme != "notary.x509" || req.Timestamper == nil) ==> result == nil && ncalls(Timestamper.Timestamp) == old(ncalls(Timestamper.Timestamp)) && env.Header == old(env.Header)
+//@   ensures [err=>typed-untouched] result != nil ==> typeof(result) == type(*signature.TimestampError) && env.Header == old(env.Header)
+//@   ensures [ok=>token-embedded] (result == nil && signingScheme == "notary.x509" && req.Timestamper != nil) ==> called(timestamp.Timestamp) && lastret(timestamp.Timestamp, 1) == nil && env.Header.TimestampSignature == lastret(timestamp.Timestamp, 0) && lastarg(timestamp.Timestamp, 0) == req && B64OK(env.Signature) && lastarg(timestamp.Timestamp, 1).Content == B64(env.Signature) && req.Signer.KeySpec().err == nil && lastarg(timestamp.Timestamp, 1).HashAlgorithm == algorithm.HashOf(algorithm.AlgOf(req.Signer.KeySpec().result0.Type, req.Signer.KeySpec().result0.Size)) && lastarg(timestamp.Timestamp, 1).HashAlgorithm != 0 && env.Header.CertChain == old(env.Header.CertChain) && env.Header.SigningAgent == old(env.Header.SigningAgent)
+
+//@ func NewEnvelope()
+//@   ensures [empty] result != nil && typeof(result) == type(*base.Envelope) && fresh(unbox(result, type(*base.Envelope))) && len(unbox(result, type(*base.Envelope)).Raw) == 0 && typeof(unbox(result, type(*base.Envelope)).Envelope) == type(*envelope) && unbox(unbox(result, type(*base.Envelope)).Envelope, type(*envelope)).base == nil
+//@ func ParseEnvelope(envelopeBytes)
+//@   ensures [err] err != nil ==> result == nil && typeof(err) == type(*signature.InvalidSignatureError)
+//@   ensures [ok] err == nil ==> JEnvOK(envelopeBytes) && typeof(result) == type(*base.Envelope) && fresh(unbox(result, type(*base.Envelope))) && unbox(result, type(*base.Envelope)).Raw == envelopeBytes && typeof(unbox(result, type(*base.Envelope)).Envelope) == type(*envelope) && unbox(unbox(result, type(*base.Envelope)).Envelope, type(*envelope)).base != nil && *unbox(unbox(result, type(*base.Envelope)).Envelope, type(*envelope)).base == JEnv(envelopeBytes)
+
+// stmt C16/C20/C08 (JWS): Sign meets the interface contract of signature.Envelope; the message is replaced only on success
+//@ func (*envelope).Sign(e, req)
+//@   props C08 C15 C16 C20
+//@   requires e != nil && req != nil && req.Signer != nil
+//@   modifies e.base
+//@   calls Signer.Sign, NewRequest, Timestamper.Timestamp, SignedToken.Verify, Validator.ValidateContext, Timestamp
+//@   ensures [err=>unchanged] err != nil ==> len(result) == 0 && e.base == old(e.base)
+//@   ensures [ok=>encoded] err == nil ==> len(result) > 0 && e.base != nil && fresh(e.base) && signature.Encodes(result, e.base)
+//@   assert before call jws.sign#0: [payload-is-object] payload != nil && JClaimsOK(req.Payload.Content) && !JIsNull(req.Payload.Content)
+//@   assert before call jws.sign#0: [attributes-valid] AttrsPlaced(req, signedAttrs) && (req.SigningScheme == signature.SigningSchemeX509 || req.SigningScheme == signature.SigningSchemeX509SigningAuthority) && arg1 == signedAttrs && arg0 == payload
